@@ -223,12 +223,25 @@ def AccessModel.access (m : AccessModel α) (fs : List (Feat α)) (pe ne : Nat) 
 
 /-! ### frontier models -/
 
+/-- `weight / number_of_axles as f64 <= limit`.  `VehicleParameters::from_query` accepts 0 axles; the
+f64 quotient is then +∞ for a positive weight (below no finite limit: the edge is refused), −∞ for a
+negative weight (below every limit that is a number) and NaN for weight zero (every comparison with
+it is false).  Written out so that the verdict is the code's in every number type — not the
+`x / 0 = 0` of a field.  (`limit + limit ≤ limit` for a positive `limit` says "`limit` is +∞",
+`limit ≤ limit` says "`limit` is not NaN"; both are what they look like in a field.) -/
+def perAxleOk (w axles limit : α) : Bool :=
+  if axles == zero then
+    if zero < w then decide (zero < limit) && decide (limit + limit ≤ limit)
+    else if w < zero then decide (limit ≤ limit)
+    else false
+  else decide (w / axles ≤ limit)
+
 /-- `VehicleRestriction::valid` -/
 def Restriction.valid (r : Restriction α) (p : VehicleParams α) : Bool :=
   match r with
   | .weight perAxle limit unit =>
     let w := p.totalWeight.2.convert unit p.totalWeight.1
-    if perAxle then decide (w / p.axles ≤ limit) else decide (w ≤ limit)
+    if perAxle then perAxleOk w p.axles limit else decide (w ≤ limit)
   | .length which limit unit =>
     let dim := match which with
       | 2 => p.totalLength
